@@ -8,6 +8,13 @@
 //   - `scan flip:/trunc:/app:…`: genuine stored values are corrupted (every bit, every truncation
 //     length, appended bytes), scanned with wrong keys / wrong key lengths / wrong src types.
 //
+// Values: besides the extremes of each type and uniformly drawn words, every instantiation with a notion of
+// size is driven through Value()/Scan() at the INNER thresholds of that size (integers next to ±2^k for the
+// narrower widths k, words of uniformly drawn bit length, float patterns with an empty half, strings and
+// []byte of lengths next to block / length-prefix sizes with edges that trimming or padding would lose):
+// deterministically once (boundaryCases) and mixed into every random stream (genVal). A representation that
+// is wrong only in such a window (a compact form chosen by magnitude) is otherwise never exercised.
+//
 // Every line is  "<op> => <result> k=v …".  Oracle fields (`pt=`, `open=`, `json=`, `dec=`) are the
 // harness's own stdlib results for exactly the bytes the real code saw.
 //
@@ -836,14 +843,169 @@ func genJSONText(r *vlib.Rng, ty string) string {
 	panic(ty)
 }
 
+// innerBits: the widths at which a NARROWER representation of an integer (or of a bit pattern) stops
+// fitting. A serialisation that is free to pick a shorter encoding for "small" values (a compact / variable
+// length form) decides by such a threshold, and a decoder that tells the forms apart by length has to agree
+// with it for the signed and for the unsigned reading: the values next to 2^k, of both signs, are where they
+// can disagree — not the extremes of the type's own width and not a uniformly drawn word (which is almost
+// surely wider than every inner threshold).
+var innerBits = []int{7, 8, 15, 16, 24, 31, 32, 40, 48, 56, 63}
+
+// sintBounds: every ±(2^k + d), d in -2..1, k an inner width, that a signed integer of `bits` bits holds,
+// and the extremes of the type.
+func sintBounds(bits int) []int64 {
+	min := int64(-1) << (bits - 1)
+	max := -(min + 1)
+	out := []int64{0, 1, -1, 2, -2, min, min + 1, max, max - 1}
+	seen := map[int64]bool{}
+	for _, v := range out {
+		seen[v] = true
+	}
+	for _, k := range innerBits {
+		if k >= bits-1 { // ±2^(bits-1) and its neighbours are the extremes above
+			break
+		}
+		for d := int64(-2); d <= 1; d++ {
+			p := int64(1)<<k + d
+			for _, v := range []int64{p, -p} {
+				if !seen[v] {
+					seen[v] = true
+					out = append(out, v)
+				}
+			}
+		}
+	}
+	return out
+}
+
+// usintBounds: every 2^k + d, d in -2..1, k an inner width, that an unsigned integer of `bits` bits holds,
+// and the extremes of the type.
+func usintBounds(bits int) []uint64 {
+	max := ^uint64(0) >> (64 - bits)
+	out := []uint64{0, 1, 2, max, max - 1, max >> 1, max>>1 + 1}
+	seen := map[uint64]bool{}
+	for _, v := range out {
+		seen[v] = true
+	}
+	for _, k := range innerBits {
+		if k >= bits {
+			break
+		}
+		for d := -2; d <= 1; d++ {
+			v := uint64(1)<<k + uint64(int64(d))
+			if v <= max && !seen[v] {
+				seen[v] = true
+				out = append(out, v)
+			}
+		}
+	}
+	return out
+}
+
+// magnitude: a word whose LENGTH in bits is uniform in 0..bits (so every inner width is as likely as the
+// full one), the top bit of that length set, the bits below it random, all ones or all zeros.
+func magnitude(r *vlib.Rng, bits int) uint64 {
+	n := r.Intn(bits + 1)
+	if n == 0 {
+		return 0
+	}
+	top := uint64(1) << (n - 1)
+	switch r.Intn(4) {
+	case 0:
+		return top
+	case 1:
+		return top | (top - 1)
+	}
+	return top | (r.U64() & (top - 1))
+}
+
+// patternBounds: bit patterns of a float of `bits` bits that a compact encoding would single out: one half
+// of the word all zero (or just not), a single bit, a run of ones of an inner width, and (64 bits) the
+// doubles that are exactly a float32.
+func patternBounds(bits int) []uint64 {
+	max := ^uint64(0) >> (64 - bits)
+	out := []uint64{}
+	seen := map[uint64]bool{}
+	add := func(v uint64) {
+		v &= max
+		if !seen[v] {
+			seen[v] = true
+			out = append(out, v)
+		}
+	}
+	for _, k := range append([]int{0, 1}, innerBits...) {
+		if k >= bits {
+			break
+		}
+		add(uint64(1) << k)
+		add(uint64(1)<<k - 1)
+		add(^(uint64(1)<<k - 1)) // only the bits from k up
+	}
+	half := uint(bits / 2)
+	halves := []uint64{0x3ff00000, 0xbff80000, 0x40590000, 0x7ff00000, 0xfff80000, 1, 0x80000000, 0x7fffffff} // 1, -1.5, 100, +Inf, NaN, …
+	if bits == 32 {
+		halves = []uint64{0x3f80, 0xbfc0, 0x42c8, 0x7f80, 0xffc0, 1, 0x8000, 0x7fff}
+	}
+	for _, h := range halves {
+		add(h << half) // low half zero
+		add(h)         // high half zero
+		add(h<<half | 1)
+		add(h<<half | 1<<(half-1))
+	}
+	if bits == 64 {
+		for _, f := range []float32{1.5, 0.1, -0.1, 3.4028235e38, 1e-45, 16777216, -2.5} {
+			add(math.Float64bits(float64(f)))
+		}
+	}
+	return out
+}
+
+// lengthBounds: string / []byte lengths around the sizes a length-dependent encoding (block, length prefix)
+// would single out.
+var lengthBounds = []int{0, 1, 2, 3, 4, 5, 7, 8, 9, 12, 15, 16, 17, 28, 31, 32, 33, 63, 64, 65, 255, 256, 257}
+
+// shapedBytes: n bytes with the edges a trimming / padding encoding would lose (leading and trailing
+// 0x00 / 0xff / space), or random.
+func shapedBytes(r *vlib.Rng, n, shape int) []byte {
+	b := randBytes(r, n)
+	if n == 0 {
+		return b
+	}
+	switch shape % 6 {
+	case 0:
+		for i := range b {
+			b[i] = 0
+		}
+	case 1:
+		for i := range b {
+			b[i] = 0xff
+		}
+	case 2:
+		b[0], b[n-1] = 0, 0
+	case 3:
+		b[0], b[n-1] = ' ', ' '
+	case 4:
+		b[0], b[n-1] = 0x80, 0x80
+	}
+	return b
+}
+
 // genVal returns a value token for type ty (boundary values favoured).
 func genVal(r *vlib.Rng, ty string) string {
 	sint := func(bits int) string {
-		min := int64(-1) << (bits - 1)
-		max := -(min + 1)
-		c := []int64{0, 1, -1, min, max, min + 1, max - 1, 0x7f, 0x80, 0xff, 0x100, -0x80, -0x81}
-		v := vlib.Pick(r, c)
-		if r.Chance(50) {
+		var v int64
+		switch p := r.Intn(100); {
+		case p < 40:
+			v = vlib.Pick(r, sintBounds(bits))
+		case p < 70:
+			v = int64(magnitude(r, bits-1))
+			if r.Chance(50) {
+				v = -v
+				if r.Chance(30) {
+					v-- // -(2^k)-1 … : the two's complement neighbour
+				}
+			}
+		default:
 			v = int64(r.U64())
 		}
 		// reduce into range keeping the low bits (two's complement truncation)
@@ -854,9 +1016,13 @@ func genVal(r *vlib.Rng, ty string) string {
 	}
 	usint := func(bits int) string {
 		max := ^uint64(0) >> (64 - bits)
-		c := []uint64{0, 1, max, max - 1, 0x7f, 0x80, 0xff, 0x100, max >> 1, (max >> 1) + 1}
-		v := vlib.Pick(r, c)
-		if r.Chance(50) {
+		var v uint64
+		switch p := r.Intn(100); {
+		case p < 40:
+			v = vlib.Pick(r, usintBounds(bits))
+		case p < 70:
+			v = magnitude(r, bits)
+		default:
 			v = r.U64()
 		}
 		return strconv.FormatUint(v&max, 10)
@@ -870,6 +1036,8 @@ func genVal(r *vlib.Rng, ty string) string {
 			return hx([]byte(vlib.Pick(r, words)))
 		case 2:
 			return hx([]byte{0xff, 0xfe, 0x00, 0x80}) // not UTF-8
+		case 3: // a length next to a block / word size, edges that trimming or padding would lose (<= 40: corruptCase's bound)
+			return hx(shapedBytes(r, vlib.Pick(r, []int{1, 2, 3, 4, 5, 7, 8, 9, 12, 15, 16, 17, 28, 31, 32, 33}), r.Intn(6)))
 		}
 		return hx(randBytes(r, r.Range(1, 40)))
 	case "int8":
@@ -891,16 +1059,26 @@ func genVal(r *vlib.Rng, ty string) string {
 	case "float32":
 		c := []uint32{0, 0x80000000, 0x7f800000, 0xff800000, 0x7fc00000, 0x7fa00001, 0xffc00001, 1, 0x007fffff, 0x00800000, 0x7f7fffff, 0x3f800000, 0xbf800000}
 		v := vlib.Pick(r, c)
-		if r.Chance(40) {
+		switch p := r.Intn(100); {
+		case p < 30:
 			v = uint32(r.U64())
+		case p < 50:
+			v = uint32(vlib.Pick(r, patternBounds(32)))
+		case p < 60:
+			v = uint32(magnitude(r, 32))
 		}
 		return strconv.FormatUint(uint64(v), 10)
 	case "float64":
 		c := []uint64{0, 1 << 63, 0x7ff0000000000000, 0xfff0000000000000, 0x7ff8000000000000, 0x7ff4000000000001, 0xfff8000000000001, 1,
 			0x000fffffffffffff, 0x0010000000000000, 0x7fefffffffffffff, 0x3ff0000000000000, 0xbff0000000000000}
 		v := vlib.Pick(r, c)
-		if r.Chance(40) {
+		switch p := r.Intn(100); {
+		case p < 30:
 			v = r.U64()
+		case p < 50:
+			v = vlib.Pick(r, patternBounds(64))
+		case p < 60:
+			v = magnitude(r, 64)
 		}
 		return strconv.FormatUint(v, 10)
 	}
@@ -1252,6 +1430,98 @@ func (g *gen) zeroCases() {
 	}
 }
 
+// boundaryToks: for every instantiation whose serialisation has a notion of size, the values at the inner
+// thresholds of that size (see innerBits / patternBounds / lengthBounds), as value tokens.
+func boundaryToks(r *vlib.Rng, ty string) []string {
+	var out []string
+	sints := func(bits int) {
+		for _, v := range sintBounds(bits) {
+			out = append(out, strconv.FormatInt(v, 10))
+		}
+	}
+	usints := func(bits int) {
+		for _, v := range usintBounds(bits) {
+			out = append(out, strconv.FormatUint(v, 10))
+		}
+	}
+	switch ty {
+	case "int8":
+		sints(8)
+	case "int16":
+		sints(16)
+	case "int32":
+		sints(32)
+	case "int64", "int":
+		sints(64)
+	case "uint8":
+		usints(8)
+	case "uint16":
+		usints(16)
+	case "uint32":
+		usints(32)
+	case "uint64", "uint":
+		usints(64)
+	case "float32":
+		for _, v := range patternBounds(32) {
+			out = append(out, strconv.FormatUint(v, 10))
+		}
+	case "float64":
+		for _, v := range patternBounds(64) {
+			out = append(out, strconv.FormatUint(v, 10))
+		}
+	case "string", "bytes":
+		for _, n := range lengthBounds { // every shape at every length: which edge matters depends on the length
+			for shape := 0; shape < 6 && (n > 0 || shape == 0); shape++ {
+				out = append(out, hx(shapedBytes(r, n, shape)))
+			}
+		}
+	case "struct": // the integer field of a JSON-serialised struct
+		for _, v := range sintBounds(64) {
+			out = append(out, jtok(fmt.Sprintf(`{"a":%d,"b":"","c":null,"d":{"k":%d},"e":null,"f":false}`, v, -v)))
+		}
+	case "map":
+		for _, v := range sintBounds(64) {
+			out = append(out, jtok(fmt.Sprintf(`{"k":%d}`, v)))
+		}
+	}
+	return out
+}
+
+// boundaryCases: every boundary value of every sized instantiation through Value() and back through Scan(),
+// from []byte and from string, into a receiver that holds another value, under keys of every legal length.
+// Deterministic (but for the filler bytes of strings): the detection of a representation that is wrong only
+// in a window next to an inner threshold must not depend on the seed.
+func (g *gen) boundaryCases() {
+	r, out := g.r, g.out
+	keys := []string{"30313233343536373839616263646566", "303132333435363738396162636465663031323334353637",
+		"3031323334353637383961626364656630313233343536373839616263646566"}
+	const perCase = 8
+	sweep := func(kind string, types []string) {
+		n := 0
+		for _, ty := range types {
+			toks := boundaryToks(r, ty)
+			prev := nonZeroTok[ty]
+			for i, t := range toks {
+				if i%perCase == 0 {
+					if kind == "enc" {
+						out.Line("new enc %s %s", ty, keys[n%3])
+					} else {
+						out.Line("new json %s", ty)
+					}
+					n++
+				}
+				out.Line("set %s 1", t)
+				out.Line("value")
+				out.Line("set %s %d", prev, i%2)
+				out.Line("scan stored %s", []string{"bytes", "string"}[(i/2)%2])
+				prev = t
+			}
+		}
+	}
+	sweep("enc", encTypes)
+	sweep("json", jsonTypes)
+}
+
 func genAll(tier string, out *vlib.Out) {
 	g := &gen{r: vlib.NewRng(vlib.Seed()), out: out, tier: tier}
 	r := g.r
@@ -1274,6 +1544,7 @@ func genAll(tier string, out *vlib.Out) {
 		}
 	}
 	g.zeroCases()
+	g.boundaryCases()
 	thorough := tier == "thorough"
 	// 1. corruption stream on a genuine ciphertext of every type: every single-bit flip for the
 	// fixed-width types (thorough: for all), every truncation length for all
